@@ -140,6 +140,9 @@ def spacings(tokens: t.List[str], maxw: int) -> t.Iterator[t.Dict[int, int]]:
     yield {i: 1 for i in range(nsl)}
 
 
+_BARE: t.Dict[str, t.Tuple[str, t.Dict[str, t.Any]]] = {k: ("( 9.9 )", RS.PARSERS[k]("( 9.9 )")) for k in ("oc", "at", "dcr")}
+
+
 def check_sentence(kind: str, s: str) -> t.Optional[t.Tuple[str, str]]:
     try:
         exp = RS.PARSERS[kind](s)
@@ -147,7 +150,8 @@ def check_sentence(kind: str, s: str) -> t.Optional[t.Tuple[str, str]]:
         raise AssertionError(f"generator produced a string outside the grammar: {s!r}: {e}") from None
     multi = "space-after-xname" if re.search(r"[xX]-[A-Za-z_-]+  ", s) else "other"
     try:
-        got = absd(CLS[kind].from_string(s))
+        obj = CLS[kind].from_string(s)
+        got = absd(obj)
     except ValueError as e:
         return (f"rejected:{kind}:{multi}:{K.exc_key(e)[:50]}", f"{s!r} is RFC 4512 but was rejected: {e}")
     except BaseException as e:  # noqa: BLE001
@@ -155,11 +159,36 @@ def check_sentence(kind: str, s: str) -> t.Optional[t.Tuple[str, str]]:
     if got != exp:
         diff = sorted(k for k in exp if exp[k] != got.get(k))
         return (f"differs:{kind}:{'+'.join(diff)}:{multi}", f"{s!r}: " + "; ".join(f"{k} should be {exp[k]!r}, got {got.get(k)!r}" for k in diff))
+    # the result belongs to the caller: after the caller has changed every list / dict in it, the same text -- and the
+    # shortest definition, which has none of the optional elements -- still parse to what the grammar denotes
+    import copy
+
+    exp0 = copy.deepcopy(exp)
+    touched = False
+    for v in absd(obj).values():
+        if isinstance(v, list):
+            v.append("caller-added")
+            touched = True
+        elif isinstance(v, dict):
+            v["CALLER"] = ["added"]
+            for lst in v.values():
+                if isinstance(lst, list):
+                    lst.append("caller-added")
+            touched = True
+    if touched:
+        for text, want in ((s, exp0), (_BARE[kind][0], _BARE[kind][1])):
+            try:
+                again = absd(CLS[kind].from_string(text))
+            except BaseException as e:  # noqa: BLE001
+                return (f"reparse-after-caller-change-raises:{type(e).__name__}", f"{text!r}: {e}")
+            if again != want:
+                diff = sorted(k for k in want if want[k] != again.get(k))
+                return (f"parse-result-shared-between-calls:{kind}:{'+'.join(diff)}", f"after the caller changed the object returned for {s!r}, {text!r} parses with {', '.join(f'{k}={again.get(k)!r}' for k in diff)}")
     return None
 
 
-TOKENS = ["(", ")", " ", "  ", "'", "$", "\\", "\\27", "\\5c", "1.2", "1", "cn", "'cn'", "NAME", "DESC", "SUP", "MUST", "SYNTAX", "X-A", "X-", "{", "}", "\n", "é"]
-assert len(TOKENS) == 24
+TOKENS = ["(", ")", " ", "  ", "'", "$", "\\", "\\27", "\\5c", "1.2", "1", "cn", "'cn'", "NAME", "DESC", "SUP", "MUST", "SYNTAX", "X-A", "X-", "{", "}", "\n", "é", "%", "%s", "%(x)d"]
+assert len(TOKENS) == 27
 
 
 def check_total(kind: str, s: str) -> t.Optional[t.Tuple[str, str]]:
